@@ -396,30 +396,30 @@ type RInt int64
 type RMap map[string]int64
 type RSlice []int64
 
-func (r RStruct) V0() int64              { return r.N + 100 }
-func (r RStruct) V1(a int64) int64       { return r.N + a }
-func (r RStruct) V2(a, b int64) int64    { return r.N + a + b }
-func (r *RStruct) P0() int64             { r.N++; return r.N }
-func (r *RStruct) P1(a int64) int64      { r.N += a; return r.N }
-func (r *RStruct) P2(a, b int64) int64   { r.N += a + b; return r.N }
-func (r RInt) V0() int64                 { return int64(r) + 100 }
-func (r RInt) V1(a int64) int64          { return int64(r) + a }
-func (r RInt) V2(a, b int64) int64       { return int64(r) + a + b }
-func (r *RInt) P0() int64                { *r++; return int64(*r) }
-func (r *RInt) P1(a int64) int64         { *r += RInt(a); return int64(*r) }
-func (r *RInt) P2(a, b int64) int64      { *r += RInt(a + b); return int64(*r) }
-func (r RMap) V0() int64                 { return r["n"] + 100 }
-func (r RMap) V1(a int64) int64          { return r["n"] + a }
-func (r RMap) V2(a, b int64) int64       { return r["n"] + a + b }
-func (r *RMap) P0() int64                { (*r)["n"]++; return (*r)["n"] }
-func (r *RMap) P1(a int64) int64         { (*r)["n"] += a; return (*r)["n"] }
-func (r *RMap) P2(a, b int64) int64      { (*r)["n"] += a + b; return (*r)["n"] }
-func (r RSlice) V0() int64               { return r[0] + 100 }
-func (r RSlice) V1(a int64) int64        { return r[0] + a }
-func (r RSlice) V2(a, b int64) int64     { return r[0] + a + b }
-func (r *RSlice) P0() int64              { (*r)[0]++; return (*r)[0] }
-func (r *RSlice) P1(a int64) int64       { (*r)[0] += a; return (*r)[0] }
-func (r *RSlice) P2(a, b int64) int64    { (*r)[0] += a + b; return (*r)[0] }
+func (r RStruct) V0() int64            { return r.N + 100 }
+func (r RStruct) V1(a int64) int64     { return r.N + a }
+func (r RStruct) V2(a, b int64) int64  { return r.N + a + b }
+func (r *RStruct) P0() int64           { r.N++; return r.N }
+func (r *RStruct) P1(a int64) int64    { r.N += a; return r.N }
+func (r *RStruct) P2(a, b int64) int64 { r.N += a + b; return r.N }
+func (r RInt) V0() int64               { return int64(r) + 100 }
+func (r RInt) V1(a int64) int64        { return int64(r) + a }
+func (r RInt) V2(a, b int64) int64     { return int64(r) + a + b }
+func (r *RInt) P0() int64              { *r++; return int64(*r) }
+func (r *RInt) P1(a int64) int64       { *r += RInt(a); return int64(*r) }
+func (r *RInt) P2(a, b int64) int64    { *r += RInt(a + b); return int64(*r) }
+func (r RMap) V0() int64               { return r["n"] + 100 }
+func (r RMap) V1(a int64) int64        { return r["n"] + a }
+func (r RMap) V2(a, b int64) int64     { return r["n"] + a + b }
+func (r *RMap) P0() int64              { (*r)["n"]++; return (*r)["n"] }
+func (r *RMap) P1(a int64) int64       { (*r)["n"] += a; return (*r)["n"] }
+func (r *RMap) P2(a, b int64) int64    { (*r)["n"] += a + b; return (*r)["n"] }
+func (r RSlice) V0() int64             { return r[0] + 100 }
+func (r RSlice) V1(a int64) int64      { return r[0] + a }
+func (r RSlice) V2(a, b int64) int64   { return r[0] + a + b }
+func (r *RSlice) P0() int64            { (*r)[0]++; return (*r)[0] }
+func (r *RSlice) P1(a int64) int64     { (*r)[0] += a; return (*r)[0] }
+func (r *RSlice) P2(a, b int64) int64  { (*r)[0] += a + b; return (*r)[0] }
 
 type MethCase struct {
 	C struct {
@@ -529,11 +529,11 @@ type Host struct {
 	hid int
 }
 
-func (h Host) Val(x int64) int64       { return h.A + x }
-func (h *Host) Ptr(x int64) int64      { h.A += x; return h.A }
-func (h Host) Two() (int64, string)    { return h.A, h.B }
-func (h Host) Err() (int64, error)     { return 0, errors.New("host failure") }
-func (h Host) Var(xs ...int64) int     { return len(xs) }
+func (h Host) Val(x int64) int64    { return h.A + x }
+func (h *Host) Ptr(x int64) int64   { h.A += x; return h.A }
+func (h Host) Two() (int64, string) { return h.A, h.B }
+func (h Host) Err() (int64, error)  { return 0, errors.New("host failure") }
+func (h Host) Var(xs ...int64) int  { return len(xs) }
 
 type scen struct {
 	name, src string
@@ -547,7 +547,9 @@ func scenarios(out string) {
 	fn := func(x int64) int64 { return x + 1 }
 	var seen []interface{}
 	take := func(x interface{}) interface{} { seen = append(seen, x); return x }
-	eqT := func(a, b interface{}) bool { return reflect.DeepEqual(a, b) && fmt.Sprintf("%T", a) == fmt.Sprintf("%T", b) }
+	eqT := func(a, b interface{}) bool {
+		return reflect.DeepEqual(a, b) && fmt.Sprintf("%T", a) == fmt.Sprintf("%T", b)
+	}
 	vals := map[string]interface{}{"i8": int8(3), "u16": uint16(4), "f32": float32(1.5), "i": int(7), "s": "x", "b": true, "sl": []int64{1, 2}, "ss": []string{"a"}, "m": map[string]int64{"a": 1},
 		"p": hp, "st": Host{A: 2, B: "v"}, "ch": ch, "fn": fn, "err": errors.New("e"), "by": []byte("ab"), "r": 'x', "i64": int64(9), "f64": 2.5, "nilp": (*Host)(nil), "nilm": map[string]int64(nil)}
 	var ss []scen
@@ -644,7 +646,11 @@ func scenarios(out string) {
 		e.Define("three", func() (int64, string, float64) { return 1, "two", 3 })
 		e.Define("apply", func(cb func(int64) string, x int64) string { return cb(x) })
 		e.Define("applyi", func(cb func(int64) int64, x int64) int64 { return cb(x) })
-		e.Define("each", func(cb func(int64)) { for _, x := range []int64{1, 2, 3} { cb(x) } })
+		e.Define("each", func(cb func(int64)) {
+			for _, x := range []int64{1, 2, 3} {
+				cb(x)
+			}
+		})
 		e.Define("tn", func(x interface{}) string { return fmt.Sprintf("%T", x) })
 		e.Define("gi", func(x int64) int64 { return x })
 		if s.setup != nil {
